@@ -68,7 +68,12 @@ var c08Existing = []string{"alice", "bob", "carol", "admin", "gadmin", "autoadm"
 func c08U(name string) string {
 	id, ok := c08UserID[name]
 	if !ok {
-		return "(U 9999)"
+		// a name outside the table (the automation identities of the identity cells): the bytes themselves
+		var bs []string
+		for _, c := range []byte(name) {
+			bs = append(bs, strconv.Itoa(int(c)))
+		}
+		return "[" + strings.Join(bs, "; ") + "]"
 	}
 	return fmt.Sprintf("(U %d)", id)
 }
@@ -113,6 +118,24 @@ func c08IsAdminTruth(u string) bool     { return u == "admin" || u == "gadmin" }
 func c08IsAutoAdminTruth(u string) bool { return u == "autoadm" }
 func c08IsAutomationIdentity(u string) bool {
 	return u == "svc-automation" || u == "svc-grp"
+}
+
+// the statement's "configured automation identity": literally (Go ==, byte for byte) an entry of
+// automation_users, or per the directory the harness wrote a member of a configured automation group
+func c08IdentityConfigured(autoUsers, autoGroups []string, id string) bool {
+	for _, a := range autoUsers {
+		if len(a) == len(id) && bytes.Equal([]byte(a), []byte(id)) {
+			return true
+		}
+	}
+	for _, g := range c08Directory[id] {
+		for _, ag := range autoGroups {
+			if g == ag {
+				return true
+			}
+		}
+	}
+	return false
 }
 
 func c08NameID(n string) int {
@@ -505,6 +528,12 @@ type c08Cell struct {
 	name     string
 	proof    int // 0 malformed, 1 wrong, 2 good
 	paramsOK bool
+	// identity cells (role certificates): Config.Base.AutomationUsers is set to this list for the request
+	// (nil = the list of the environment's configuration file); cfgIdx = index of that configuration in the
+	// case file; identClass = the shape the requested identity was derived by (oracle key)
+	autoUsers  []string
+	cfgIdx     int
+	identClass string
 }
 
 func (c *c08Cell) coqOp() string {
@@ -536,8 +565,12 @@ func (c *c08Cell) nameID() int {
 var c08Proofs = []string{"PMalformed", "PWrong", "PGood"}
 
 func (c *c08Cell) describe() string {
-	return fmt.Sprintf("variant=%d cred=%s:%s:%d post=%v op=%s/%s target=%q index=%q name=%q proof=%s params=%v", c.variant, c.cred.kind, c.cred.user,
+	s := fmt.Sprintf("variant=%d cred=%s:%s:%d post=%v op=%s/%s target=%q index=%q name=%q proof=%s params=%v", c.variant, c.cred.kind, c.cred.user,
 		c.cred.level, c.post, c.op, c.action, c.target, c.index, c.name, c08Proofs[c.proof], c.paramsOK)
+	if c.autoUsers != nil {
+		s += fmt.Sprintf(" automation_users=%q identity-shape=%s", c.autoUsers, c.identClass)
+	}
+	return s
 }
 
 func (c *c08Cell) tokenOp() bool {
@@ -570,6 +603,8 @@ type c08Runner struct {
 	chains  map[string][][]*x509.Certificate
 	cookies map[string]*http.Cookie
 	logins  map[string]string // spelling typed at the login form -> subject of the session the server issued
+	// further configurations (the environment's with another automation_users list) for the case file
+	newCfg func(autoUsers []string) int
 }
 
 // the subject of the session the real login handler issues for this spelling of the name
@@ -792,6 +827,15 @@ func (r *c08Runner) run(c *c08Cell) {
 	}
 	before := c08Snapshot(r.t, r.env)
 	req := r.request(c)
+	cfgIdx := r.envIdx
+	autoUsers := r.env.state.Config.Base.AutomationUsers
+	if c.autoUsers != nil {
+		// the configured automation identities of this request: isAutomationUser reads the live configuration
+		saved := r.env.state.Config.Base.AutomationUsers
+		r.env.state.Config.Base.AutomationUsers = c.autoUsers
+		defer func() { r.env.state.Config.Base.AutomationUsers = saved }()
+		cfgIdx, autoUsers = c.cfgIdx, c.autoUsers
+	}
 	rr, panicked := r.env.serve(req)
 	after := c08Snapshot(r.t, r.env)
 	changed := c08Changed(before, after)
@@ -801,7 +845,7 @@ func (r *c08Runner) run(c *c08Cell) {
 	}
 	desc := c.describe()
 	keyTail := fmt.Sprintf("%s:%s:%s", c.op, c08RoleClass(who), c.cred.levelClass())
-	caseInfo := map[string]interface{}{"cell": desc, "env": r.envIdx, "status": rr.Code, "changed": changed, "panicked": panicked}
+	caseInfo := map[string]interface{}{"cell": desc, "env": cfgIdx, "status": rr.Code, "changed": changed, "panicked": panicked}
 	// ---- the statement's own oracle
 	admin := c08IsAdminTruth(who) && c.cred.kind != "none" && c.cred.kind != "ipcert"
 	for _, v := range changed {
@@ -842,7 +886,14 @@ func (r *c08Runner) run(c *c08Cell) {
 			minter := (admin || c08IsAutoAdminTruth(who)) && c.cred.kind != "none" && c.cred.kind != "ipcert"
 			if crt == nil || crt.x509 == nil {
 				r.res.hit(verifHit{Key: "C08:rolecert-unparsable:" + keyTail, Oracle: "harness", What: "role certificate endpoint answered 200 without a certificate: " + desc, Case: caseInfo})
-			} else if !minter || !c08IsAutomationIdentity(crt.cn) || crt.cn != c.target {
+			} else if minter && crt.cn == c.target && c.identClass != "" && !c08IdentityConfigured(autoUsers, r.env.state.Config.Base.AutomationUserGroups, crt.cn) {
+				// the statement's last clause on the identity cells: the certificate names an identity that is not,
+				// byte for byte, an entry of automation_users (and in no configured automation group)
+				caseInfo["automation_users"] = autoUsers
+				caseInfo["requested_identity"] = c.target
+				r.res.hit(verifHit{Key: "C08:rolecert-unconfigured-identity:" + c.identClass, Oracle: "an automation certificate was minted for an identity that is not one of the configured automation identities (automation_users taken literally, automation_user_groups per the directory)",
+					What: fmt.Sprintf("with automation_users=%q, %s (%s) obtained a role-requesting certificate for CN=%q, which is not an entry of the list (identity shape: %s)", autoUsers, who, c08RoleClass(who), crt.cn, c.identClass), Case: caseInfo, Observed: crt.cn})
+			} else if !minter || !c08IdentityConfigured(autoUsers, r.env.state.Config.Base.AutomationUserGroups, crt.cn) || crt.cn != c.target {
 				r.res.hit(verifHit{Key: "C08:rolecert:" + keyTail, Oracle: "an automation certificate was minted by somebody who is neither administrator nor automation administrator, or for an identity that is not a configured automation identity",
 					What: fmt.Sprintf("%s (%s) obtained a role-requesting certificate for CN=%q (asked for %q)", who, c08RoleClass(who), crt.cn, c.target), Case: caseInfo})
 			}
@@ -850,11 +901,21 @@ func (r *c08Runner) run(c *c08Cell) {
 	}
 	// ---- counters
 	nontrivial := c.cred.kind != "none" && (c.target != who || c.userAdminOp() || c.op == "RoleCert")
-	r.res.eval(fmt.Sprintf("%d|%s|%s|%v", r.envIdx, desc, class, changed), nontrivial)
+	r.res.eval(fmt.Sprintf("%d|%s|%s|%v", cfgIdx, desc, class, changed), nontrivial)
 	r.res.bump("op:" + c.op)
 	r.res.bump("role:" + c08RoleClass(who))
 	r.res.bump("level:" + c.cred.levelClass())
 	r.res.bump("resp:" + class)
+	if c.identClass != "" {
+		r.res.bump("identity-shape:" + c.identClass)
+		if class == "ROk" {
+			r.res.bump("identity:minted")
+		} else if c08IdentityConfigured(autoUsers, nil, c.target) {
+			r.res.bump("identity:configured-refused(requester-or-empty-identity)")
+		} else {
+			r.res.bump("identity:unconfigured-refused")
+		}
+	}
 	switch {
 	case c.target == "":
 		r.res.bump("target:empty")
@@ -894,9 +955,9 @@ func (r *c08Runner) run(c *c08Cell) {
 		delta = append(delta, fmt.Sprintf("(%s, Some (%s))", c08U(v), pp))
 	}
 	obs := "[" + strings.Join(delta, "; ") + "]"
-	r.cases = append(r.cases, fmt.Sprintf("(%d%%nat, %d, %s, %v, %s, %s, %s, %d, %s, %v, %s, %s)", r.envIdx, c.variant, c.cred.coq(), c.post, c.coqOp(),
+	r.cases = append(r.cases, fmt.Sprintf("(%d%%nat, %d, %s, %v, %s, %s, %s, %d, %s, %v, %s, %s)", cfgIdx, c.variant, c.cred.coq(), c.post, c.coqOp(),
 		c08U(c.target), c.coqIndex(), c.nameID(), c08Proofs[c.proof], c.paramsOK, class, obs))
-	r.idx = append(r.idx, fmt.Sprintf("env=%d %s -> %d %s changed=%v", r.envIdx, desc, rr.Code, class, changed))
+	r.idx = append(r.idx, fmt.Sprintf("env=%d %s -> %d %s changed=%v", cfgIdx, desc, rr.Code, class, changed))
 }
 
 // ---------------------------------------------------------------- matrix
@@ -1008,6 +1069,138 @@ func (r *c08Runner) caseVariants() {
 	}
 	for _, cred := range []c08Cred{{"login", "Admin", pw}, {"login", "Alice", u2fL}} {
 		r.run(&c08Cell{variant: c08VarTokens, cred: cred, post: true, op: "RoleCert", target: "svc-automation", paramsOK: true})
+	}
+}
+
+// identity cells: what "configured automation identity" means when the configured names contain characters
+// that some matcher one could put in place of == would read as operators.  Per shape: the entries put into
+// automation_users, and requested identities = each entry itself (must still be served) + names that differ
+// from an entry exactly where that matcher would be lenient.  The shapes name the matcher family:
+//
+//	regexp (. + * ? [ ] ( ) | ^ $ \ { }), like (SQL LIKE _ %), glob (* ? [ ]), ldap (filter * ( )),
+//	case (letter case), space (leading / trailing blanks), affix (a prefix / a suffix / an extension of an
+//	entry), separator (an entry that a splitter would cut), empty (the empty entry / the empty list)
+type c08IdentShape struct {
+	class      string
+	configured []string
+	requested  []string // besides the configured entries themselves
+}
+
+var c08IdentShapes = []c08IdentShape{
+	{"regexp", []string{"deploy.bot"}, []string{"deploy-bot", "deployxbot", "deploy_bot", "deploybot", "deploy..bot"}},
+	{"regexp", []string{"svc+build"}, []string{"svcbuild", "svccbuild", "svc-build", "svc build"}},
+	{"regexp", []string{"img*cache"}, []string{"imcache", "imggggcache", "imgcache"}},
+	{"regexp", []string{"node[0-9]"}, []string{"node0", "node7", "node[0-9", "node"}},
+	{"regexp", []string{"host(a|b)"}, []string{"hosta", "hostb", "host(a", "host"}},
+	{"regexp", []string{"ci|cd"}, []string{"ci", "cd", "ci|", "|cd"}},
+	{"regexp", []string{"runner?"}, []string{"runne", "runner"}},
+	{"regexp", []string{"^root$", "^backup", "restore$"}, []string{"root", "backup", "restore", "backup-job", "pre-restore"}},
+	{"regexp", []string{"rel\\.eng", "build\\d"}, []string{"rel.eng", "releng", "build1", "buildd", "build\\\\d"}},
+	{"regexp", []string{"vm{2}", "lb{1,3}"}, []string{"vmm", "lb", "lbbb", "vm"}},
+	{"like", []string{"svc_db"}, []string{"svc-db", "svcxdb", "svcdb", "svc__db"}},
+	{"like", []string{"batch%", "%ops"}, []string{"batch", "batch-1", "batchjobs", "ops", "devops"}},
+	{"glob", []string{"web*"}, []string{"web", "web1", "web-frontend"}},
+	{"glob", []string{"db?"}, []string{"db1", "dbx", "db"}},
+	{"glob", []string{"cache[ab]"}, []string{"cachea", "cacheb", "cache"}},
+	{"glob", []string{"*"}, []string{"alice", "anything", "**"}},
+	{"glob", []string{"?"}, []string{"a", "x"}},
+	{"ldap", []string{"team(ops)"}, []string{"teamops", "team(ops", "team", "ops"}},
+	{"ldap", []string{"mon*", "x)(uid=*"}, []string{"monitor", "mon", "x", "xuid"}},
+	{"case", []string{"Deploy", "buildbot"}, []string{"deploy", "DEPLOY", "Buildbot", "BUILDBOT", "buildBot"}},
+	{"space", []string{"ops bot ", " lead", "plain"}, []string{"ops bot", "ops bot  ", "lead", "  lead", "plain ", " plain", "plain\t", "opsbot"}},
+	{"affix", []string{"backup-agent-01"}, []string{"backup-agent", "backup-agent-0", "backup-agent-011", "agent-01", "0backup-agent-01", "b", "backup-agent-01/x"}},
+	{"affix", []string{"svc-automation"}, []string{"svc-automatio", "svc-automation-", "svc", "automation", "xsvc-automation", "svc-automationsvc-automation"}},
+	{"separator", []string{"etl,report", "sync async"}, []string{"etl", "report", "sync", "async", "etl,", ",report"}},
+	{"empty", []string{""}, []string{"alice", "x", " "}},
+	{"empty", []string{}, []string{"svc-automation", "alice"}},
+}
+
+func (r *c08Runner) identities(rng *mrand.Rand, nRandom int) {
+	pw, u2fL := AuthTypePassword, AuthTypePassword|AuthTypeU2F
+	minters := []c08Cred{{"session", "admin", pw}, {"kmcert", "autoadm", 0}}
+	one := func(cfgIdx int, list []string, class, id string, creds []c08Cred) {
+		for _, cred := range creds {
+			r.run(&c08Cell{variant: c08VarTokens, cred: cred, post: true, op: "RoleCert", target: id, paramsOK: true, autoUsers: list, cfgIdx: cfgIdx, identClass: class})
+		}
+	}
+	var all []string
+	seen := map[string]bool{}
+	type shapeCfg struct {
+		k    int
+		list []string
+	}
+	var shapeCfgs []shapeCfg
+	for _, sh := range c08IdentShapes {
+		// the entries of this shape next to the environment's own identity
+		list := append([]string{}, sh.configured...)
+		if len(sh.configured) > 0 && sh.configured[0] != "svc-automation" {
+			list = append(list, "svc-automation")
+		}
+		k := r.newCfg(list)
+		shapeCfgs = append(shapeCfgs, shapeCfg{k, list})
+		for _, id := range sh.configured {
+			one(k, list, sh.class, id, minters)
+			// somebody who is neither administrator nor automation administrator, for a configured identity
+			one(k, list, sh.class, id, []c08Cred{{"session", "alice", u2fL}})
+			if !seen[id] {
+				seen[id] = true
+				all = append(all, id)
+			}
+		}
+		for _, id := range sh.requested {
+			one(k, list, sh.class, id, minters)
+		}
+	}
+	// seeded: an entry with one byte replaced / dropped / inserted / its letter case flipped / a blank added
+	const alphabet = "abcxyzABC019-_.*+?|()[]{}^$\\%/ ,"
+	for i := 0; i < nRandom; i++ {
+		si := rng.Intn(len(c08IdentShapes))
+		sh := c08IdentShapes[si]
+		if len(sh.configured) == 0 {
+			continue
+		}
+		e := []byte(sh.configured[rng.Intn(len(sh.configured))])
+		if len(e) == 0 {
+			continue
+		}
+		pos := rng.Intn(len(e))
+		ch := alphabet[rng.Intn(len(alphabet))]
+		var id []byte
+		switch rng.Intn(6) {
+		case 0:
+			id = append(append(append([]byte{}, e[:pos]...), ch), e[pos+1:]...)
+		case 1:
+			id = append(append([]byte{}, e[:pos]...), e[pos+1:]...)
+		case 2:
+			id = append(append(append([]byte{}, e[:pos]...), ch), e[pos:]...)
+		case 3:
+			id = append([]byte{}, e...)
+			if c := id[pos]; c >= 'a' && c <= 'z' {
+				id[pos] = c - 32
+			} else if c >= 'A' && c <= 'Z' {
+				id[pos] = c + 32
+			} else {
+				id = append(id, id[pos])
+			}
+		case 4:
+			id = append(append([]byte{}, e...), ' ')
+		default:
+			id = append([]byte{}, e[:pos+1]...) // a prefix (the whole entry when pos is its last byte)
+		}
+		one(shapeCfgs[si].k, shapeCfgs[si].list, sh.class, string(id), minters[rng.Intn(2):][:1])
+	}
+	// all entries in one list (an entry must not be read as a pattern whatever stands around it), in both orders
+	rev := make([]string, len(all))
+	for i, a := range all {
+		rev[len(all)-1-i] = a
+	}
+	for li, list := range [][]string{all, rev} {
+		k := r.newCfg(list)
+		for _, sh := range c08IdentShapes {
+			for _, id := range append(append([]string{}, sh.configured...), sh.requested...) {
+				one(k, list, sh.class, id, minters[li:li+1])
+			}
+		}
 	}
 }
 
@@ -1472,7 +1665,7 @@ func TestVerif_C08(t *testing.T) {
 	}
 	caseSensitiveEnv := 3
 	keys := verifNewKeys()
-	var cfgCoq, fixtureCoq []string
+	var cfgCoq, extraCfgCoq, fixtureCoq []string
 	var allCases, allIdx []string
 	var traceCases, traceIdx []string
 	var maxDur time.Duration
@@ -1515,9 +1708,17 @@ func TestVerif_C08(t *testing.T) {
 		r := &c08Runner{t: t, env: env, fix: fix, res: res, keys: keys, envIdx: ei, curVar: -1, chains: map[string][][]*x509.Certificate{}, cookies: map[string]*http.Cookie{}, logins: map[string]string{}}
 		// the configuration the model is evaluated with: read back from the loaded state
 		cb := st.Config.Base
-		cfgCoq = append(cfgCoq, fmt.Sprintf("{| admin_users := %s; admin_groups := %s; automation_users := %s; automation_user_groups := %s; automation_admins := %s; webui_required := %d; disable_normalisation := %v |}",
-			c08CoqNames(cb.AdminUsers), c08CoqList(cb.AdminGroups, c08GroupID), c08CoqNames(cb.AutomationUsers),
-			c08CoqList(cb.AutomationUserGroups, c08GroupID), c08CoqNames(cb.AutomationAdmins), st.getRequiredWebUIAuthLevel(), cb.DisableUsernameNormalization))
+		cfgOf := func(autoUsers []string) string {
+			return fmt.Sprintf("{| admin_users := %s; admin_groups := %s; automation_users := %s; automation_user_groups := %s; automation_admins := %s; webui_required := %d; disable_normalisation := %v |}",
+				c08CoqNames(cb.AdminUsers), c08CoqList(cb.AdminGroups, c08GroupID), c08CoqNames(autoUsers),
+				c08CoqList(cb.AutomationUserGroups, c08GroupID), c08CoqNames(cb.AutomationAdmins), st.getRequiredWebUIAuthLevel(), cb.DisableUsernameNormalization)
+		}
+		cfgCoq = append(cfgCoq, cfgOf(cb.AutomationUsers))
+		// configurations that differ from this one in automation_users only (identity cells): numbered after the environments'
+		r.newCfg = func(autoUsers []string) int {
+			extraCfgCoq = append(extraCfgCoq, cfgOf(autoUsers))
+			return len(backendSets) + len(extraCfgCoq) - 1
+		}
 		if ei == 0 {
 			for v := 0; v < 3; v++ {
 				fix.reset(t, v)
@@ -1539,6 +1740,14 @@ func TestVerif_C08(t *testing.T) {
 		r.matrix(levels, ei == 0 || thorough)
 		if ei == 0 || ei == caseSensitiveEnv {
 			r.caseVariants()
+		}
+		if ei == 0 || (thorough && ei == caseSensitiveEnv) {
+			nRandom := 60
+			if thorough {
+				nRandom = 1500
+			}
+			// a stream of its own: the cells and histories below keep theirs
+			r.identities(mrand.New(mrand.NewSource(verifSeed()*7919+int64(ei)+8)), nRandom)
 		}
 		if ei == 0 {
 			r.sweeps(rng, thorough)
@@ -1571,7 +1780,7 @@ func TestVerif_C08(t *testing.T) {
 	sb.WriteString(c08UTable())
 	sb.WriteString("Definition T (i : Z) (n : tname) (e : bool) : Z * tok := (i, {| tk_name := n; tk_enabled := e |}).\n")
 	sb.WriteString("Definition P (u w t : tokens) (a b c d e : bool) : profile := {| p_u2f := u; p_wa := w; p_totp := t; p_regchal := a; p_pending_totp := b; p_wa_session := c; p_bootstrap := d; p_registered := e |}.\n")
-	sb.WriteString("Definition cfgs : list cfg := [\n " + strings.Join(cfgCoq, ";\n ") + "].\n")
+	sb.WriteString("Definition cfgs : list cfg := [\n " + strings.Join(append(cfgCoq, extraCfgCoq...), ";\n ") + "].\n")
 	sb.WriteString("Definition cfg_of (i : nat) : cfg := nth i cfgs {| admin_users := []; admin_groups := []; automation_users := []; automation_user_groups := []; automation_admins := []; webui_required := 0; disable_normalisation := false |}.\n")
 	// the directory the harness wrote
 	var dirLines []string
@@ -1624,7 +1833,8 @@ func TestVerif_C08(t *testing.T) {
 `)
 	{
 		expr := "None"
-		for i := len(cellShards) - 1; i >= 0; i-- {
+		// the shard with the largest offset <= i: its test must be the outermost one
+		for i := 0; i < len(cellShards); i++ {
 			sh := cellShards[i]
 			expr = fmt.Sprintf("if %d <=? i then nth_error %s (i - %d) else %s", sh.offset, sh.name, sh.offset, expr)
 		}
